@@ -167,6 +167,33 @@ def errorHolds (dbg : DebugOracle) (doc : Json) (fb : List CFb) : Bool :=
 def endStreamHolds (dbg : DebugOracle) (doc : Json) (fb : List CFb) : Bool :=
   (endStreamOK dbg doc == fb.isEmpty) && demandsMet (mustFlagEndStream doc) fb
 
+/-! ### the `debug` member of a detail -/
+
+/-- the type URL names the message type `n`: `n` is what follows the LAST slash - whatever
+stands in front of it (nothing, the default host, any other host, a host with a path, several
+slashes) - or the URL has no slash and is `n` -/
+def urlNames (url n : Bytes) : Bool := !n.contains 47 && (url == n || ((47 : UInt8) :: n).isSuffixOf url)
+
+/-- well-formed debug data for a detail of type `msgName`: the type is known, the value is a
+message of that type, and the debug data is that same message - rendered either as the message
+itself or as a `google.protobuf.Any` whose type URL names `msgName` -/
+def debugOK (msgName : Bytes) (s : DebugSteps) : Bool :=
+  s.resolved && s.valueOK &&
+  (if s.directOK then s.eqDirect
+   else match s.anyUrl with
+     | some url => urlNames url msgName && s.newOK && s.eqAny
+     | none => false)
+
+/-- the oracle of the declarative side: silent exactly on well-formed debug data -/
+def debugSpecOracle (st : StepsOracle) : DebugOracle :=
+  fun i t d => if debugOK t (st i t d) then none else some .mismatch
+
+/-- debug data in `Any` form whose type URL names another type must be reported as such (when
+the debug data is not also a rendering of the message itself) -/
+def mustFlagDebugType (msgName : Bytes) (s : DebugSteps) : Bool :=
+  s.resolved && s.valueOK && !s.directOK &&
+  (match s.anyUrl with | some url => !urlNames url msgName | none => false)
+
 /-! ### the errors a spec-conformant encoder is given -/
 
 /-- every detail has a valid type name, a `debug` rendering without duplicate keys, and the
